@@ -75,7 +75,9 @@ def run(chk, repo, tier):
         'sorted': [nf.app('not', nf.app('all', nf.app('eq', nf.app('sort', val), val))),
                    nf.app('any', nf.app('ne', nf.app('sort', val), val))],
         'unique': [nf.app('any', nf.app('eq', step, C(0))), nf.app('not', nf.app('all', nf.app('ne', step, C(0)))),
-                   nf.app('any', nf.app('eq', nf.app('diff', val), C(0)))],
+                   nf.app('any', nf.app('eq', nf.app('diff', val), C(0))),
+                   # a step counts as true exactly when it is not zero
+                   nf.app('not', nf.app('all', step)), nf.app('not', nf.app('all', nf.app('diff', val)))],
     }
     store_paths = [p for p in paths if p.status != 'raise']
     from ..interp import canon_cond
